@@ -129,6 +129,43 @@ def generate_stage(res, scratch, progs):
                 res.violation("%s printed %d `wrote:` lines for %d generated files" % (tag, len(wrote), len(expect)),
                               {"stdout_tail": out[-1500:], "dbc": next(iter(texts.values()), "")})
         cov["invocations"] = cov.get("invocations", 0) + 1
+    # HISTORY: generate again into an output directory that already holds the results of an earlier run, after the inputs
+    # changed - half of the files now carry ANOTHER program's text (so outputs shrink/grow) and every input is made OLDER
+    # than the existing outputs (a make-style "up to date" shortcut must not exist; an output written without truncation
+    # keeps the tail of the previous one). Reference = the same command on the same inputs into a fresh directory.
+    rels = sorted(r[:-3] for r in expect)        # <rel>.dbc
+    if len(rels) >= 2:
+        import time
+        hist_in, hist_out, fresh_out = (os.path.join(scratch, d) for d in ("cli_hist_in", "cli_hist_out", "cli_fresh_out"))
+        for d in (hist_in, hist_out, fresh_out):
+            shutil.rmtree(d, ignore_errors=True)
+        shutil.copytree(cin, hist_in)
+        rc1, out1 = vlib.sh([exe, "generate", ".", os.path.relpath(hist_out, hist_in)], cwd=hist_in, timeout=600)
+        by_size = sorted(rels, key=lambda r: len(open(os.path.join(cin, r), "rb").read()))
+        swaps = list(zip(by_size[:len(by_size) // 2], reversed(by_size[len(by_size) // 2:])))
+        for small, large in swaps:
+            a, b = open(os.path.join(cin, small), "rb").read(), open(os.path.join(cin, large), "rb").read()
+            open(os.path.join(hist_in, small), "wb").write(b)
+            open(os.path.join(hist_in, large), "wb").write(a)
+        old = time.time() - 7200
+        for r in rels:
+            os.utime(os.path.join(hist_in, r), (old, old))
+        rc2, out2 = vlib.sh([exe, "generate", ".", os.path.relpath(hist_out, hist_in)], cwd=hist_in, timeout=600)
+        rc3, out3 = vlib.sh([exe, "generate", ".", os.path.relpath(fresh_out, hist_in)], cwd=hist_in, timeout=600)
+        cov["regenerated_into_existing_directory"] = len(rels)
+        if rc1 != 0 or rc2 != 0 or rc3 != 0:
+            res.violation("`cantool generate` fails when run a second time into an existing output directory (exit %d, %d, fresh %d)" % (rc1, rc2, rc3),
+                          {"output_tail": (out2 + out3)[-2000:], "dbc": next(iter(texts.values()), "")})
+        else:
+            h, f = _walk(hist_out), _walk(fresh_out)
+            bad = sorted(r for r in set(h) | set(f) if h.get(r) != f.get(r))
+            if bad:
+                r = bad[0]
+                res.violation("`cantool generate` into an output directory that holds the results of an earlier run differs from the "
+                              "same command into a fresh directory (file %s: %d bytes vs %d bytes): the result depends on what was "
+                              "generated before" % (r, len(h.get(r, b"")), len(f.get(r, b""))),
+                              {"dbc": open(os.path.join(hist_in, r[:-3]), "rb").read().decode("utf-8", "replace"),
+                               "files_differing": bad[:10], "second_run_stdout_tail": out2[-1000:]})
     # inputs that must make the command fail, each in its own directory
     for label, text in (("warning", _WARNING_DBC), ("syntax-error", _BROKEN_DBC)):
         d = os.path.join(scratch, "cli_bad_" + label)
